@@ -41,6 +41,11 @@ def main():
                 extra = dict(target="narrow", nan_pocket=0.03, n_particles=16) if (i % 7 == 3) else {}   # NaN pocket at a narrow mode: reached by proposals, not by prior draws
                 cases.append((dict(dict(sample=k, resample=r, clustering=cl, volume_variation=vv, quant=20, n_particles=16 if (i % 5 == 4) else 8,
                                    support=0.5 if (i % 5 == 4) else None, nan_pocket=None), **extra), cc, 1000 * rep + i))
+    # a plateau likelihood whose UNSHIFTED value is exactly 0.0 (and c on it for the shifted run), and a blob stored in single
+    # precision next to the log-likelihood (large |c|: the log-likelihood itself must stay in double precision)
+    cases.append((dict(sample="tpcn", resample="mult", clustering=False, volume_variation=None, quant=None, n_particles=8, support=None, nan_pocket=None, target="tophat"), 3.0, 9001))
+    cases.append((dict(sample="rwm", resample="syst", clustering=False, volume_variation=None, quant=None, n_particles=8, support=None, nan_pocket=None, target="tophat"), -37.5, 9002))
+    cases.append((dict(sample="tpcn", resample="mult", clustering=False, volume_variation=None, quant=20, n_particles=8, support=None, nan_pocket=None, evaluation="blobs_f4"), 300.0, 9003))
     violations_seen = 0
     inconclusive = 0
     discarded = 0
@@ -68,8 +73,12 @@ def main():
         nxt = []
         for k, (conf, c, seed, attempt) in enumerate(pending):
             A, B = R[2 * k], R[2 * k + 1]
+            if pairs.out_of_scope(A) and pairs.out_of_scope(B):
+                discarded += 1  # out of scope here: the all-zero-likelihood prior batch is C11's known finding (the same draws die in both runs)
+                continue
             if pairs.out_of_scope(A) or pairs.out_of_scope(B):
-                discarded += 1  # out of scope here: the all-zero-likelihood prior batch is C11's known finding
+                ck.violation("shift:one-run-died", f"only ONE of the runs with logL and logL{c:+g} (same seed) ends in {pairs.out_of_scope(A) or pairs.out_of_scope(B)}: "
+                             f"the constant changed which draws have zero likelihood, in {conf}", {"conf": conf, "c": c})
                 continue
             if A["raised"] or B["raised"]:
                 ck.violation("pair:raised", f"run raised {A['raised'] or B['raised']} for {conf} shift {c}", {"conf": conf, "c": c})
